@@ -18,6 +18,7 @@ From BCL Require Import Model.Api Model.Compile Spec.Syntax Spec.AstSem Proofs.P
 Open Scope N_scope.
 
 From BCL Require Import Proofs.VerifyFrag Proofs.CompileVerifies Proofs.Limits.
+From BCL Require Import Proofs.ParserTotal Proofs.SizeBounds.
 
 (* parser ; VM = grammar ; big-step semantics over names, for every source text *)
 Theorem C02_language : forall name src,
@@ -103,6 +104,18 @@ Theorem C02_tree_semantics_within_limits : forall (p : list stmt) (name : bytes)
   binding_match (binding_ en) (rr_binding rr) /\ nlen (rr_warn rr) = warnings en.
 Proof. first [exact Limits.T1_program_iff_within_limits | apply Limits.T1_program_iff_within_limits]. Qed.
 Print Assumptions C02_tree_semantics_within_limits.
+
+(* only hypotheses: input shorter than 2^56 bytes, accepted, within the two VM limits *)
+Theorem C02_language_within_limits_input : forall name src,
+  let pr := parse_whole name src in
+  let ts := fst (lex [src]) in
+  nlen src < 2^56 -> pr_ok pr = true ->
+  exists p, ast_program ts = Some p /\
+    (within_limits p ->
+     let rr := execute (pr_prog pr) false false in
+     res_match (fst (run_program p)) (rr_res rr) /\ obs_match (snd (run_program p)) rr).
+Proof. first [exact SizeBounds.bcl_language_within_limits_input | apply SizeBounds.bcl_language_within_limits_input]. Qed.
+Print Assumptions C02_language_within_limits_input.
 
 (* non-vacuity: shadowing, own-initialiser, fields versus variables, embedded assignment *)
 Example C02_example :
